@@ -22,7 +22,7 @@ T0 = 1000.0
 # the key alphabet: ==-equal arguments of different types (-1 / -1.0, True / 1), positional against keyword, and UNEQUAL
 # arguments of one type with EQUAL hashes (hash(-1) == hash(-2) in CPython): a key is matched by equality, not by hash
 # ... and the call with NO arguments at all (its key is empty - and a key all the same)
-ARGS = {1: ((-1,), {}), 2: ((-1.0,), {}), 3: ((), {"x": -1}), 4: ((), {"x": -1.0}), 5: ((), {}), 6: ((-2,), {}), 7: ((True,), {}), 8: ((1,), {})}
+ARGS = {1: ((-1,), {}), 2: ((-1.0,), {}), 3: ((), {"x": -1}), 4: ((), {"x": -1.0}), 5: ((-2,), {}), 6: ((), {}), 7: ((True,), {}), 8: ((1,), {})}
 
 
 class Val:
@@ -303,7 +303,7 @@ def groups(tier):
     if tier == "quick":
         return [
             ("fn", dict(NKeys=3, NRecv=1, Forms=FN, Limits=[1, 2, 3], Expirations=[0, 2], MaxT=3, MaxOps=5, Outs=["val", "exc"], Steps=[1], MaxRenew=1, Nested=False, Bug="none"),
-             dict(NKeys=4, NRecv=1, Forms=FN, Limits=[1, 2], Expirations=[0, 2], MaxT=3, MaxOps=3, Outs=["val", "exc"], Steps=[1], MaxRenew=1, Nested=False, Bug="none")),
+             dict(NKeys=5, NRecv=1, Forms=FN, Limits=[1, 2], Expirations=[0, 2], MaxT=3, MaxOps=3, Outs=["val", "exc"], Steps=[1], MaxRenew=1, Nested=False, Bug="none")),
             ("method", dict(NKeys=2, NRecv=2, Forms=METH, Limits=[1, 2, 3], Expirations=[0, 2], MaxT=3, MaxOps=5, Outs=["val", "exc"], Steps=[1], MaxRenew=1, Nested=False, Bug="none"),
              dict(NKeys=2, NRecv=2, Forms=METH, Limits=[1, 2], Expirations=[0, 2], MaxT=3, MaxOps=3, Outs=["val", "exc"], Steps=[1], MaxRenew=1, Nested=False, Bug="none")),
             # longer histories on a narrow configuration: expiry and LRU order interacting (re-stored keys, eviction
@@ -316,7 +316,7 @@ def groups(tier):
         ]
     return [
         ("fn", dict(NKeys=3, NRecv=1, Forms=FN, Limits=[1, 2, 3], Expirations=[0, 2, 3], MaxT=4, MaxOps=6, Outs=["val", "exc"], Steps=[1], MaxRenew=1, Nested=False, Bug="none"),
-         dict(NKeys=4, NRecv=1, Forms=FN, Limits=[1, 2, 3], Expirations=[0, 2], MaxT=3, MaxOps=4, Outs=["val", "exc"], Steps=[1], MaxRenew=1, Nested=False, Bug="none")),
+         dict(NKeys=5, NRecv=1, Forms=FN, Limits=[1, 2, 3], Expirations=[0, 2], MaxT=3, MaxOps=4, Outs=["val", "exc"], Steps=[1], MaxRenew=1, Nested=False, Bug="none")),
         ("method", dict(NKeys=2, NRecv=2, Forms=METH, Limits=[1, 2, 3], Expirations=[0, 2, 3], MaxT=4, MaxOps=6, Outs=["val", "exc"], Steps=[1], MaxRenew=1, Nested=False, Bug="none"),
          dict(NKeys=2, NRecv=2, Forms=METH, Limits=[1, 2, 3], Expirations=[0, 2], MaxT=3, MaxOps=4, Outs=["val", "exc"], Steps=[1], MaxRenew=1, Nested=False, Bug="none")),
         ("nested", dict(NKeys=3, NRecv=1, Forms=["sync_fn", "sync_method"], Limits=[1, 2], Expirations=[0, 2], MaxT=4, MaxOps=5, Outs=["val"], Steps=[1, 2], MaxRenew=0, Nested=True, Bug="none"),
@@ -359,7 +359,7 @@ def run(rep, work, tier, seed):
               config_vars=["form", "limit", "expn"], actions=dict(Call=3, CallNested=3, CallSlow=3, Advance=1, Renew=1, Drain=0),
               invariants=["Capacity", "NoDuplicateKeys", "Sound"])
     rep.assumptions += [
-        "key alphabet f(-1), f(-1.0), f(x=-1), f(x=-1.0), f(), f(-2), f(True), f(1) (==-equal but differently typed, positional vs keyword, "
+        "key alphabet f(-1), f(-1.0), f(x=-1), f(x=-1.0), f(-2), f(), f(True), f(1) (==-equal but differently typed, positional vs keyword, "
         "unequal with equal hashes); method "
         "receivers are ==-equal, hash-equal, distinct instances",
         "exact integer virtual time; expiration=0 means 'never expires' in haiway and is modelled so",
